@@ -81,7 +81,11 @@ struct ExploreStats {
 // preemption_bound < 0: unbounded (only terminates thanks to state pruning / finite space).
 ExploreStats explore(const std::function<uint64_t()> &body,
                      int preemption_bound, long long max_executions,
-                     const std::function<void(const std::vector<int>&, uint64_t)> &on_exec = nullptr);
+                     const std::function<void(const std::vector<int>&, uint64_t)> &on_exec = nullptr,
+                     bool delay_bounded = false);
+// delay_bounded = true: EVERY non-default choice costs one unit of the bound (also the choice of who
+// continues when the running fiber blocked), i.e. the bound limits the number of departures from the
+// default deterministic schedule ("delay bounding"); the number of executions is then polynomial.
 
 } // namespace vs
 #endif
